@@ -12,7 +12,7 @@ CHECKS = {
     note="bounded configurations; CPython-level atomicity of list/lock operations; simulated Lock/list/stream wrappers stand in for the OS scheduler"),
  "C13": dict(
     spec="RpycServe", design="5/C13",
-    technique="TLA+ spec RpycServe (serve/wait/dispatch, one action per shared operation) model-checked by TLC; state-graph transition cover replayed into real client threads + BgServingThread under a deterministic scheduler; random and preemption-bounded exhaustive implementation schedules trace-validated by TLC and judged by per-request oracles",
+    technique="TLA+ spec RpycServe (serve/wait/dispatch, one action per shared operation) model-checked by TLC; state-graph transition cover replayed into real client threads + BgServingThread under a deterministic scheduler; random and preemption-bounded exhaustive implementation schedules trace-validated by TLC and judged by per-request oracles; every source line of serve/_dispatch/_seq_request_callback/_async_request/AsyncResult.wait/__call__/value as the one forced preemption point, including requests the peer answers with an exception",
     text="TLC exhausts 2-3 client threads (+ background server) against a peer answering in any order for receive-lock exclusion, exactly-once dispatch, reply/request matching, no lost wake-up, no hang, termination; the real serve()/AsyncResult code is driven along every edge of the state graph with state comparison, and implementation schedules are checked against the spec by TLC and by direct oracles (result identity, dispatch counts, sequence numbers, deadlock / lost wake-up detection in virtual time)",
     note="bounded configurations; sending is one step (C12); preemption at shared-object operations (source lines in the thorough tier); simulated Lock/Condition/clock/transport"),
  "C14": dict(
@@ -22,27 +22,27 @@ CHECKS = {
     note="bounded configurations; virtual time: timeouts only run out at quiescence; the known hand-off stall is listed in known_findings.json"),
  "C10": dict(
     spec="RpycLifetime", design="5/C10",
-    technique="TLA+ specs RpycLifetime (owner table counts, proxy counts, two FIFO streams) and RpycLifetimeInspect (objects of user classes: unboxing suspended in a nested INSPECT round trip that serves further references, several proxy objects per key) model-checked by TLC with the Accounting invariant; transition-cover and random histories executed on two real Connections with frame-by-frame manual delivery, compared state by state and trace-validated by TLC; reference-count and identity oracles",
+    technique="TLA+ specs RpycLifetime (owner table counts, proxy counts, two FIFO streams) and RpycLifetimeInspect (objects of user classes: unboxing suspended in a nested INSPECT round trip that serves further references, several proxy objects per key) model-checked by TLC with the Accounting invariant; transition-cover and random histories executed on two real Connections with frame-by-frame manual delivery, compared state by state and trace-validated by TLC; reference-count and identity oracles; TLA+ spec RpycRefColl (owner's table under a sending and a serving thread) with line-granularity schedules of the real RefCountingColl; the reference traffic of the repository's own test suite validated by TLC against RpycEndpointRefs (owner's end)",
     text="TLC exhausts all interleavings of send / send-in-tuple / request / drop / pass-back / deliver-either-stream / close for 2 objects and proves Accounting, Safety, LeakFree; the same histories are executed on a real connection pair whose two directions are released frame by frame, with the owner's table, the holder's proxy counts and the decoded frames in flight compared with the TLC state after every step, and longer random histories are validated against the spec by TLC",
     note="bounded model (2 objects, 3 boxings, streams of 3); lent objects are lists (built-in netref classes, RpycLifetime) and instances of a user class (nested INSPECT during delivery, RpycLifetimeInspect); CPython refcounting with automatic GC disabled"),
  "C08": dict(
     spec="RpycLedger", design="5/C08",
-    technique="TLA+ spec RpycLedger (two peers, request/reply/exception frames, re-entrant serve with unwinding) model-checked by TLC; transition-cover and random request histories executed on two real Connections with frame-by-frame delivery, compared with the TLC state and trace-validated by TLC; frame-level ledger oracle over all traffic",
+    technique="TLA+ spec RpycLedger (two peers, request/reply/exception frames, re-entrant serve with unwinding) model-checked by TLC; transition-cover and random request histories executed on two real Connections with frame-by-frame delivery, compared with the TLC state and trace-validated by TLC; frame-level ledger oracle over all traffic; every connection of the repository's own test suite recorded message by message (pytest plugin wrapping Channel.send/recv) and validated by TLC against RpycEndpoint (sequence numbers never reused, every response answers an open request, one response per request)",
     text="TLC exhausts request streams of 3 top-level requests over 7 outcome classes (value, reference, raises, undecodable arguments, unknown handler, unencodable result, nested callback), sync and async, in both directions, for exactly-one-response, routing by sequence number, kind, completeness and connection survival; the histories are executed on a real pair and every frame crossing the transport is accounted for",
     note="single-threaded sides (C13 covers threads); bounded histories; exception payloads that are themselves unencodable (an int beyond the digit limit inside exception args) are not generated"),
  "C11": dict(
     spec="RpycTeardown", design="5/C11", level="model_checking",
-    technique="TLA+ spec RpycTeardown (connection life cycle at public-call granularity with read/write faults) model-checked by TLC; fault enumeration on the real Connection+Channel+SocketStream stack over scripted sockets (failure at every recv/send call, fragmented runs for mid-packet positions, all close orders) with every run's event log trace-validated by TLC and judged at each public-call boundary",
+    technique="TLA+ spec RpycTeardown (connection life cycle at public-call granularity with read/write faults) model-checked by TLC; fault enumeration on the real Connection+Channel+SocketStream stack over scripted sockets (failure at every recv/send call, fragmented runs for mid-packet positions, all close orders) with every run's event log trace-validated by TLC and judged at each public-call boundary; TLA+ spec RpycServeEof (RpycServe plus the peer vanishing: liveness EveryoneEnds, counterexample without the notification in serve()'s finally block) model-checked; the peer vanishing at arbitrary scheduling points while 2-3 real threads share the connection; real OS pipes whose peer disappears without CLOSE; every statement of close()/_cleanup() as a window in which a second thread of the same side closes (sys.monitoring breakpoints)",
     text="TLC exhausts issue/serve/close/wait with socket read and write faults at any point and all orders of the two close() calls for hook-at-most-once, closed-implies-clean, no invented value, no hang; the same obligations are checked on the real stack for every single transport call position of four workloads (sync, async, nested callbacks, references both ways), and the recorded event logs are accepted by the spec",
     note="one fault per run; poll() itself is not failed; sides single-threaded and serving while idle; a reply-send failure in a bare serve() may leave closed false until the next serve (reading note in DESIGN.md)"),
  "C15": dict(
-    spec="RpycAsync", design="5/C15",
+    spec="RpycAsync", design="5/C15; two genuine defects found by these additions are recorded as fixed (concurrent clean-up)",
     technique="TLA+ spec RpycAsync (one AsyncResult in discrete virtual time: reply, unrelated traffic, expiry, queries, callbacks, wait) model-checked by TLC; TLC -simulate behaviours replayed on a real AsyncResult/Connection under a virtual clock with the program's observation log compared with the specification's; sync_request and timed() driven through the same behaviours",
     text="TLC exhausts all orderings within T=3 of reply arrival, unrelated traffic, expiry and the program's operations for finality, callbacks-once-in-order and timeout timing; each simulated behaviour is a test of the real AsyncResult: results of ready/error/expired/wait and the instant of every return or raise must equal the specification's observation log",
     note="discrete virtual time (1 tick = 1 s); 'reply came first' = processed before the expiry instant; bounded behaviours (depth <= 22)"),
  "C05": dict(
     spec="RpycChannel", design="5/C05",
-    technique="TLA+ spec RpycChannel (writer/reader over a fragmenting, stalling, failing byte stream; byte offsets, write splitting, header/body read loops) model-checked by TLC; every edge of the small-constant state graph dictated as transport decisions to the real Channel + SocketStream/PipeStream over fake sockets / fake os.read-write with state comparison; real-size transfers with random fragmentation whose I/O call logs are trace-validated by TLC",
+    technique="TLA+ spec RpycChannel (writer/reader over a fragmenting, stalling, failing byte stream; byte offsets, write splitting, header/body read loops) model-checked by TLC; every edge of the small-constant state graph dictated as transport decisions to the real Channel + SocketStream/PipeStream over fake sockets / fake os.read-write with state comparison; real-size transfers with random fragmentation whose I/O call logs are trace-validated by TLC; a reader or writer failing although the transport neither failed nor ended is a violation",
     text="TLC exhausts all splits of every send and recv, transient timeouts/EAGAIN and a fault at every position for CHUNK=8/THRESHOLD=2 packets (single-write, multi-write, empty, compressed) for frame alignment, no over-read, prefix delivery and clean failure; the real code is driven through every such decision and compared (bytes moved, size of every I/O request, packets delivered, closed flags, exception class), and at real sizes (0..128001, around 3000 and 64000) the logged I/O calls must be a behaviour of the spec and the bytes received must equal the bytes sent",
     note="reliable in-order byte stream until failure; one writer and one reader per direction; zlib bodies compared after decompression"),
  "C06": dict(
